@@ -46,6 +46,10 @@ for _m, _n in gen.NONSTD:
 NORM_LABEL = {refvm.norm_global(m, n): v for (m, n), v in LABEL.items()}
 
 
+def _k(t):
+    return b"\x8c" + bytes([len(t)]) + t.encode()
+
+
 def is_dangerous_module(m):
     parts = m.split(".")
     return parts[0] in DANGEROUS_TOP or any(".".join(parts[:i + 1]) in DANGEROUS_EXACT for i in range(len(parts)))
@@ -99,7 +103,13 @@ def programs(ctx):
         same = [b"cplatform\n" + name.encode() + b"\n0",
                 b"ccollections\n" + name.encode() + b"\n(tR0",
                 gen.push_global("STACK_GLOBAL", "copy", name) + b"0"]
-        return gen.BENIGN_PRE + same
+        # ... and benign constructs the pickle VM accepts but a symbolic interpreter may not model (APPEND /
+        # APPENDS / ADDITEMS / SETITEM on the result of a call, persistent ids): whatever follows them must
+        # still be seen - or the whole pickle refused - never silently cut off
+        unmodelled = [b"ccollections\ndeque\n)R(K\x01K\x02e0", b"ccollections\ndeque\n)RK\x01a0",
+                      b"ccollections\nUserList\n)R}bK\x01a0", b"ccollections\nOrderedDict\n)R(" + _k("k") + b"K\x01u0",
+                      b"K\x07Q0", b"Ppid\n0"]
+        return gen.BENIGN_PRE + same + unmodelled
 
     # A. import only
     for (m, n) in names:
